@@ -278,7 +278,7 @@ var rawEscapes = []string{"%zz", "%", "%4", "a%00b", "%C0%AF", "%FF%FE", "%2", "
 // rawSegments go into the path as they are: escaped slashes, bytes net/url would have escaped, dot segments,
 // literal slashes (which change the number of segments), escaped delimiters.
 var rawSegments = []string{"a%2Fb", "a|b%2Fkeys", "é%2Fx", "%2F", "a%2F..%2Fb", "..", ".", "a%3Fb", "a%23b", "a;b", "a%20b", "x/y", "/", "%65cho", "json%2F1", "shapes%2Falpha",
-	"1%2F2", "alpha%2F", "%2Falpha", "a{b}", "a\"b", "a^b", "a`b", "%7Bid%7D", "1/2/3", "params%2Fa%2F1%2F.b"}
+	"jsonstreamX", "jsonstream1", "json1", "formX", "paramsX", "secure2x", "variantsX", "echoX", "optX", "anyX", "1%2F2", "alpha%2F", "%2Falpha", "a{b}", "a\"b", "a^b", "a`b", "%7Bid%7D", "1/2/3", "params%2Fa%2F1%2F.b"}
 
 // worldRoutes: the world's path templates, segment by segment ("*" = a parameter).
 var worldRoutes = []struct {
@@ -601,6 +601,14 @@ func sampleCall(rng *rand.Rand, mode Mode) Call {
 		}
 		if c.Op == "echoForm" && rng.Intn(4) == 0 {
 			c.Fault = &Fault{Kind: []string{"drop-field", "drop-field", "dup-field"}[rng.Intn(3)], Arg: []string{"name", "age", "nick", "langs"}[rng.Intn(4)]}
+		}
+		if c.Op == "echoForm" && rng.Intn(60) == 0 {
+			// ten MiB of padding and then a field the schema does not admit
+			c.Fault = &Fault{Kind: "append", Arg: "BIGFORM:" + []string{"&age=notanumber", "&name=twice", "&age=%zz"}[rng.Intn(3)]}
+		}
+		if c.Op == "echoShapes" && rng.Intn(10) == 0 {
+			// a member the deepObject parameter's schema (additionalProperties: false) does not declare
+			c.Fault = &Fault{Kind: "add-query", Arg: []string{"filter[sizf]=3", "filter[zz]=x&filter[zz]=y", "filter[status][x]=1", "filter[]=1"}[rng.Intn(4)]}
 		}
 		if c.Op == "echoMultipart" && rng.Intn(4) == 0 {
 			c.Fault = &Fault{Kind: []string{"drop-field", "drop-field", "dup-field"}[rng.Intn(3)], Arg: []string{"name", "count", "file", "extra"}[rng.Intn(4)]}
@@ -928,6 +936,14 @@ func oracleC15(r *CallRecord) []problem {
 						add("a parameter that no reading of its type admits is answered 400 and never reaches the handler", fmt.Sprintf("delivery %d: %s (%s) rewritten to %q: status %d, handler calls %d, handler saw %s", i, r.Call.Fault.Arg, typ, clip(text, 60), s.Status, s.HandlerCalls, clip(s.ServerSaw, 200)))
 					}
 				}
+			}
+		case k == "add-query" && r.Call.Op == "echoShapes":
+			if s.HandlerCalls != 0 || s.Status != 400 {
+				add("a member the parameter's schema does not declare (additionalProperties: false) is answered 400", fmt.Sprintf("delivery %d: %s appended: status %d, handler calls %d", i, r.Call.Fault.Arg, s.Status, s.HandlerCalls))
+			}
+		case k == "append" && r.Call.Op == "echoForm" && strings.HasPrefix(r.Call.Fault.Arg, "BIGFORM:") && r.Call.Invalid == "":
+			if s.HandlerCalls != 0 || (s.Status != 400 && s.Status != 413) {
+				add("what lies behind ten MiB of a form body is not simply cut off", fmt.Sprintf("delivery %d: %s after the padding: status %d, handler calls %d", i, r.Call.Fault.Arg[8:], s.Status, s.HandlerCalls))
 			}
 		case k == "drop-field" && r.Call.Invalid == "" && (r.Call.Op == "echoForm" || r.Call.Op == "echoMultipart"):
 			required := r.Call.Fault.Arg == "name" || r.Call.Fault.Arg == "file"
